@@ -174,12 +174,18 @@ func checkC08(c *Ctx) {
 		if i%16 == 3 {
 			cells = r.IR(150, 320) // several buffer flushes per contour
 		}
-		kind := r.I(5)
+		kind := r.I(6)
 		var s sdf.SDF2
 		var desc string
 		var radius float64
 		scale := r.LogR(0.1, 100)
+		if r.P(0.3) { // the same outline drawn in other units: closure must not depend on the absolute size of a cell
+			scale *= pickOne(r, []float64{1e-6, 1e-5, 1e-4, 1e-3, 1e3, 1e6})
+		}
 		ofs := v2.Vec{X: r.R(-3, 3) * scale, Y: r.R(-3, 3) * scale}
+		if r.P(0.1) {
+			ofs = ofs.MulScalar(pickOne(r, []float64{1e2, 1e4}))
+		}
 		switch kind {
 		case 0, 1:
 			radius = scale * r.R(0.5, 2)
@@ -194,11 +200,27 @@ func checkC08(c *Ctx) {
 			rd := 0.5 * math.Min(sz.X, sz.Y) * r.R(0.1, 1)
 			s = sdf.Box2D(sz, rd)
 			desc = fmt.Sprintf("rbox(%g,%g,%g)", sz.X, sz.Y, rd)
-		default:
+		case 4:
 			a, _ := sdf.Circle2D(scale * r.R(0.5, 1.5))
 			b := sdf.Transform2D(sdf.Box2D(v2.Vec{X: scale * r.R(0.5, 2), Y: scale * r.R(0.5, 2)}, 0), sdf.Translate2d(v2.Vec{X: scale * r.R(-1, 1), Y: scale * r.R(-1, 1)}))
 			s = sdf.Union2D(a, b)
 			desc = "union(circle,box)"
+		default:
+			// a field that is not a distance: a non-uniformly scaled outline. Stretching (factors >= 1) only underestimates
+			// distances, which both renderers must cope with; shrinking overestimates them, which only the quadtree
+			// renderer is allowed to rely on not happening
+			var base sdf.SDF2
+			if r.Bool() {
+				base, _ = sdf.Circle2D(scale * r.R(0.5, 1.5))
+			} else {
+				base = sdf.Box2D(v2.Vec{X: scale * r.R(0.5, 2), Y: scale * r.R(0.5, 2)}, scale*r.R(0, 0.2))
+			}
+			f := v2.Vec{X: r.LogR(1, 5), Y: r.LogR(1, 5)}
+			if rk.name == "uniform" {
+				f = v2.Vec{X: r.LogR(0.08, 5), Y: r.LogR(0.08, 5)}
+			}
+			s = sdf.Transform2D(base, sdf.Scale2d(f))
+			desc = fmt.Sprintf("scaled(%.3g,%.3g)", f.X, f.Y)
 		}
 		rot := 0.0
 		if kind >= 2 && r.Bool() {
@@ -284,7 +306,7 @@ func checkC08(c *Ctx) {
 				}
 			}
 			c.MaxObs("box_worst_straight_edge_error_rel", worst/scale)
-			if worst > 1e-9*scale {
+			if worst > 1e-9*scale+2*snapEps { // values within the renderer's absolute snap distance of zero move the endpoint onto the node
 				c.Violate("", fmt.Sprintf("ms-straight %s %s cells=%d: endpoint %g off a straight boundary", rk.name, desc, cells, worst), cs)
 			}
 		}
